@@ -392,3 +392,332 @@ Proof.
     replace (N.of_nat (N.to_nat utotal - 1)) with (utotal - 1) in Hgo by lia.
     rewrite Hgo. reflexivity.
 Qed.
+
+(** * the encoder's output *)
+
+Lemma go_varint_enc_block k (Hk : k = 32 \/ k = 64) last chunk rest :
+  go_varint (enc_block k last chunk ++ rest)
+  = Some (sintZ k (block_m k last chunk),
+          map width_of (chunks num_mini_blocks mini_block_size (cleared_block k last chunk))
+          ++ concat (map emit (chunks num_mini_blocks mini_block_size (cleared_block k last chunk))) ++ rest).
+Proof.
+  rewrite enc_block_unfold, <- !app_assoc. apply go_varint64_roundtrip.
+  apply (in_sint_64_of_k k _ Hk). apply sintZ_in_range; [destruct Hk; subst; lia|].
+  apply block_min_lt, block_delta_lt.
+Qed.
+
+Lemma dec_blocks64_ok k (Hk : k = 32 \/ k = 64) : forall fuel rest_vals last tail,
+  (length rest_vals <= fuel)%nat ->
+  last < 2 ^ k -> Forall (fun v => v < 2 ^ k) rest_vals ->
+  dec_blocks64 fuel k mini_block_size num_mini_blocks
+    (enc_blocks fuel k last rest_vals ++ tail) (length rest_vals) last
+  = Some (rest_vals, tail).
+Proof.
+  induction fuel as [|f IH]; intros vals last tail Hfuel Hlast Hvals.
+  - destruct vals; [reflexivity|cbn in Hfuel; lia].
+  - cbn [enc_blocks dec_blocks64].
+    destruct vals as [|v vals'] eqn:Ev; [reflexivity|].
+    rewrite <- Ev in *. assert (Hne : (0 < length vals)%nat) by (subst vals; cbn; lia).
+    clear Ev v vals'.
+    destruct (Nat.eqb_spec (length vals) 0) as [E|_]; [lia|].
+    set (chunk := firstn block_size vals).
+    assert (Hcl : length chunk = Nat.min block_size (length vals)) by (subst chunk; apply firstn_length).
+    pose proof block_size_pos as Hbp.
+    assert (Hchunk : Forall (fun v => v < 2 ^ k) chunk) by (subst chunk; apply Forall_firstn; exact Hvals).
+    destruct (dec_block_ok k Hk last chunk (length vals)
+                (enc_blocks f k (List.last chunk last) (skipn block_size vals) ++ tail)
+                Hlast Hchunk ltac:(lia) ltac:(lia) ltac:(lia)) as (m & Hm & Hvd & Hmb).
+    rewrite <- app_assoc.
+    pose proof (go_varint_enc_block k Hk last chunk
+                  (enc_blocks f k (List.last chunk last) (skipn block_size vals) ++ tail)) as Hgv.
+    pose proof (go_varint_spec _ _ Hgv) as Hgs. rewrite Hvd in Hgs.
+    assert (Em : sintZ k (block_m k last chunk) = sintZ k m) by (inversion Hgs; reflexivity).
+    rewrite Hgv, Em.
+    assert (Hwl : length (map width_of (chunks num_mini_blocks mini_block_size (cleared_block k last chunk))) = num_mini_blocks).
+    { rewrite map_length.
+      assert (Hcbl : length (cleared_block k last chunk) = (num_mini_blocks * mini_block_size)%nat).
+      { unfold cleared_block. rewrite pad_to_length; [apply block_size_eq|]. rewrite firstn_length. lia. }
+      destruct (chunks_exact mini_block_size mini_block_pos num_mini_blocks _ Hcbl) as (_ & _ & Hl). exact Hl. }
+    rewrite <- Hwl at 1. rewrite DeltaBPProofs.take_bytes_app.
+    rewrite wrapZ_sintZ by (destruct Hk; subst; lia || exact Hm).
+    rewrite Hmb.
+    replace (length vals - length chunk)%nat with (length (skipn block_size vals))
+      by (rewrite skipn_length; lia).
+    rewrite IH.
+    + f_equal. f_equal. subst chunk. apply firstn_skipn.
+    + rewrite skipn_length. lia.
+    + apply last_lt; assumption.
+    + apply Forall_skipn. exact Hvals.
+Qed.
+
+Lemma enc_blocks_fuel k : forall f1 f2 last vals, (length vals <= f1)%nat -> (length vals <= f2)%nat ->
+  enc_blocks f1 k last vals = enc_blocks f2 k last vals.
+Proof.
+  induction f1 as [|f1 IHf]; intros f2 last vals H1 H2.
+  - destruct vals; [destruct f2; reflexivity|cbn in H1; lia].
+  - destruct f2 as [|f2]; [destruct vals; [reflexivity|cbn in H2; lia]|].
+    cbn [enc_blocks]. destruct vals as [|v vals'] eqn:Ev; [reflexivity|].
+    rewrite <- Ev in *. f_equal. apply IHf.
+    + rewrite skipn_length. pose proof block_size_pos. subst vals. cbn [length] in *. lia.
+    + rewrite skipn_length. pose proof block_size_pos. subst vals. cbn [length] in *. lia.
+Qed.
+
+(** [dec64] accepts what the encoder writes *)
+Theorem dec64_enc k (Hk : k = 32 \/ k = 64) xs tail :
+  Forall (in_sint k) xs -> N.of_nat (length xs) < 2 ^ 64 ->
+  dec64 k (enc k xs ++ tail) = Some (xs, tail).
+Proof.
+  intros Hxs Hlen. unfold enc, dec64.
+  assert (Hkpos : 0 < k) by (destruct Hk; subst; lia).
+  rewrite <- !app_assoc.
+  rewrite go_uvarint64_roundtrip by apply block_size_small.
+  rewrite go_uvarint64_roundtrip by apply num_mini_blocks_small.
+  rewrite go_uvarint64_roundtrip by exact Hlen.
+  destruct xs as [|x xs'].
+  - rewrite go_varint64_roundtrip by (unfold in_sint; cbn; lia).
+    cbn [length N.of_nat N.eqb map app]. reflexivity.
+  - inversion Hxs as [|? ? Hx Hxs']; subst.
+    rewrite go_varint64_roundtrip by (apply (in_sint_64_of_k k _ Hk); exact Hx).
+    destruct (N.eqb_spec (N.of_nat (length (x :: xs'))) 0) as [E|_]; [cbn in E; lia|].
+    destruct (N.eqb_spec (N.of_nat num_mini_blocks) 0) as [E|_]; [exfalso; exact (nmb_nonzero E)|].
+    rewrite vpm_eq, !Nat2N.id.
+    cbn [map length].
+    replace (S (length xs') - 1)%nat with (length (map (wrapZ k) xs')) by (rewrite map_length; lia).
+    pose proof (dec_blocks64_ok k Hk (S (length xs')) (map (wrapZ k) xs') (wrapZ k x) tail) as H.
+    rewrite (enc_blocks_fuel k (length (map (wrapZ k) xs')) (S (length xs')) (wrapZ k x) (map (wrapZ k) xs'))
+      by (rewrite map_length; lia).
+    rewrite H.
+    + f_equal. f_equal. cbn [map]. f_equal.
+      * apply sintZ_wrapZ; assumption.
+      * rewrite map_map. rewrite <- (map_id xs') at 2. apply map_ext_in.
+        intros z Hz. apply sintZ_wrapZ; [assumption|].
+        rewrite Forall_forall in Hxs'. now apply Hxs'.
+    + rewrite map_length. lia.
+    + apply wrapZ_lt.
+    + apply wrapZ_all.
+Qed.
+
+Lemma block_size_128 : N.of_nat block_size = 128.
+Proof. vm_compute. reflexivity. Qed.
+Lemma num_mini_blocks_4 : N.of_nat num_mini_blocks = 4.
+Proof. vm_compute. reflexivity. Qed.
+
+(** Go accepts the header the encoder writes *)
+Lemma go_header_enc k (Hk : k = 32 \/ k = 64) xs tail :
+  Forall (in_sint k) xs -> N.of_nat (length xs) <= max_int32 ->
+  exists first s, go_dbp_header (enc k xs ++ tail) = GOk (128%Z, 4%Z, Z.of_nat (length xs), first, s)
+                  /\ first_ok k first.
+Proof.
+  intros Hxs Hlen. unfold enc, go_dbp_header.
+  assert (Hmi : max_int32 < 2 ^ 31) by (vm_compute; reflexivity).
+  rewrite <- !app_assoc.
+  rewrite go_uvarint64_roundtrip by apply block_size_small.
+  rewrite go_uvarint64_roundtrip by apply num_mini_blocks_small.
+  rewrite go_uvarint64_roundtrip by (change (2 ^ 64) with (2 ^ 33 * 2 ^ 31); lia).
+  assert (Hfirst : in_sint k (match xs with [] => 0%Z | x :: _ => x end)).
+  { destruct xs as [|x xs']; [destruct Hk; subst; unfold in_sint; cbn; lia|]. now inversion Hxs. }
+  rewrite go_varint64_roundtrip by (apply (in_sint_64_of_k k _ Hk); exact Hfirst).
+  rewrite block_size_128, num_mini_blocks_4.
+  change (to_int64 128) with 128%Z. change (to_int64 4) with 4%Z.
+  cbn [Z.eqb Z.leb Z.compare orb negb Z.rem Z.quot Z.quotrem Z.ltb].
+  assert (Et : to_int64 (N.of_nat (length xs)) = Z.of_nat (length xs)).
+  { unfold to_int64. change (2 ^ 63) with (2 ^ 32 * 2 ^ 31).
+    destruct (N.ltb_spec (N.of_nat (length xs)) (2 ^ 32 * 2 ^ 31)); lia. }
+  rewrite Et.
+  destruct (Z.ltb_spec (Z.of_nat (length xs)) 0); [lia|].
+  destruct (Z.ltb_spec (Z.of_N max_int32) (Z.of_nat (length xs))); [lia|].
+  eexists _, _. split; [reflexivity|].
+  intros ->. exact Hfirst.
+Qed.
+
+(** every byte the encoder writes is a byte *)
+Lemma fold_max_le (l : list N) (bnd : N) :
+  Forall (fun x => x <= bnd) l -> forall a, a <= bnd -> fold_left N.max l a <= bnd.
+Proof. induction 1 as [|x l Hx Hl IH]; intros a Ha; cbn [fold_left]; [exact Ha|]. apply IH. lia. Qed.
+
+Lemma width_of_le k g : Forall (fun v => v < 2 ^ k) g -> width_of g <= k.
+Proof.
+  intros H. unfold width_of. apply fold_max_le; [|lia].
+  apply Forall_forall. intros x Hx. apply in_map_iff in Hx. destruct Hx as (v & <- & Hv).
+  apply bitlen_mono_bound. rewrite Forall_forall in H. now apply H.
+Qed.
+
+Lemma chunks_forall {A} (P : A -> Prop) n : forall fuel (l : list A),
+  Forall P l -> Forall (Forall P) (chunks fuel n l).
+Proof.
+  induction fuel as [|f IH]; intros l Hl; cbn [chunks]; [constructor|].
+  destruct l as [|a l'] eqn:E; [constructor|]. rewrite <- E in *.
+  constructor; [now apply Forall_firstn|]. apply IH. now apply Forall_skipn.
+Qed.
+
+Lemma concat_wf (ls : list bytes) : Forall wf_bytes ls -> wf_bytes (concat ls).
+Proof.
+  induction 1 as [|l ls Hl Hls IH]; [constructor|]. cbn [concat]. apply wf_bytes_app. split; assumption.
+Qed.
+
+Lemma enc_block_wf k (Hk : k = 32 \/ k = 64) last chunk : wf_bytes (enc_block k last chunk).
+Proof.
+  rewrite enc_block_unfold.
+  assert (Hc : Forall (fun v => v < 2 ^ k) (cleared_block k last chunk)).
+  { unfold cleared_block, pad_to. apply Forall_app. split.
+    - apply Forall_firstn. apply Forall_forall. intros x Hx. apply in_map_iff in Hx.
+      destruct Hx as (d & <- & _). apply subk_lt.
+    - apply Forall_forall. intros x Hx. apply repeat_spec in Hx. subst x. apply pow2_pos. }
+  pose proof (chunks_forall _ mini_block_size num_mini_blocks _ Hc) as Hg.
+  apply wf_bytes_app. split; [apply uvarint_enc_wf|].
+  apply wf_bytes_app. split.
+  - apply Forall_forall. intros x Hx. apply in_map_iff in Hx. destruct Hx as (g & <- & Hin).
+    rewrite Forall_forall in Hg. pose proof (width_of_le k g (Hg g Hin)). destruct Hk; subst; lia.
+  - apply concat_wf. apply Forall_forall. intros x Hx. apply in_map_iff in Hx.
+    destruct Hx as (g & <- & _). apply to_le_wf.
+Qed.
+
+Lemma enc_blocks_wf k (Hk : k = 32 \/ k = 64) : forall fuel last vals, wf_bytes (enc_blocks fuel k last vals).
+Proof.
+  induction fuel as [|f IH]; intros last vals; cbn [enc_blocks]; [constructor|].
+  destruct vals; [constructor|]. apply wf_bytes_app. split; [now apply enc_block_wf|apply IH].
+Qed.
+
+Lemma enc_wf k (Hk : k = 32 \/ k = 64) xs : wf_bytes (enc k xs).
+Proof.
+  unfold enc. repeat (apply wf_bytes_app; split); try apply uvarint_enc_wf.
+  destruct (map (wrapZ k) xs); [constructor|now apply enc_blocks_wf].
+Qed.
+
+(** Go decodeInt32/64 (Go encodeInt32/64 xs ++ tail) = (xs, tail), and so does
+    the specification decoder *)
+Theorem go_dbp_roundtrip k (Hk : k = 32 \/ k = 64) xs tail :
+  Forall (in_sint k) xs -> N.of_nat (length xs) <= max_int32 -> wf_bytes tail ->
+  go_dbp_dec k (enc k xs ++ tail) = GOk (xs, tail).
+Proof.
+  intros Hxs Hlen Hwt.
+  assert (Hmi : max_int32 < 2 ^ 31) by (vm_compute; reflexivity).
+  destruct (go_header_enc k Hk xs tail Hxs Hlen) as (first & s & Hh & Hf).
+  eapply go_dbp_refines.
+  - apply wf_bytes_app. split; [now apply enc_wf|exact Hwt].
+  - apply dec64_enc; [exact Hk|exact Hxs|]. change (2 ^ 64) with (2 ^ 33 * 2 ^ 31). lia.
+  - exact Hh.
+  - exact Hf.
+Qed.
+
+(** * DELTA_LENGTH_BYTE_ARRAY *)
+
+Fixpoint offsets_from (a : N) (vs : list bytes) : list N :=
+  match vs with
+  | [] => [a]
+  | v :: r => a :: offsets_from (a + N.of_nat (length v)) r
+  end.
+
+Lemma offsets_from_cons a vs : exists t, offsets_from a vs = a :: t.
+Proof. destruct vs; cbn [offsets_from]; eauto. Qed.
+
+Lemma go_lengths_offsets_ok vs : forall a,
+  a + N.of_nat (length (concat vs)) < 2 ^ 32 ->
+  go_lengths_offsets (lengths_of vs) a = Some (offsets_from a vs, a + N.of_nat (length (concat vs))).
+Proof.
+  induction vs as [|v r IH]; intros a Ha; cbn [lengths_of map go_lengths_offsets concat offsets_from length].
+  - rewrite N.add_0_r. reflexivity.
+  - cbn [concat] in Ha. rewrite app_length in Ha.
+    destruct (Z.ltb_spec (Z.of_nat (length v)) 0); [lia|].
+    replace (Z.to_N (Z.of_nat (length v))) with (N.of_nat (length v)) by lia.
+    rewrite N.mod_small by lia.
+    fold (lengths_of r). rewrite IH by lia.
+    rewrite app_length. f_equal. f_equal. lia.
+Qed.
+
+Lemma unflatten_ok vs : forall pre tail,
+  unflatten (pre ++ concat vs ++ tail) (offsets_from (N.of_nat (length pre)) vs) = vs.
+Proof.
+  induction vs as [|v r IH]; intros pre tail; cbn [offsets_from]; [reflexivity|].
+  destruct (offsets_from_cons (N.of_nat (length pre) + N.of_nat (length v)) r) as (t & Et).
+  rewrite Et. cbn [unflatten]. rewrite <- Et.
+  replace (N.to_nat (N.of_nat (length pre) + N.of_nat (length v) - N.of_nat (length pre))) with (length v) by lia.
+  rewrite Nat2N.id, skipn_app_exact. cbn [concat]. rewrite <- app_assoc, firstn_app_exact.
+  f_equal.
+  replace (N.of_nat (length pre) + N.of_nat (length v)) with (N.of_nat (length (pre ++ v)))
+    by (rewrite app_length; lia).
+  rewrite <- (IH (pre ++ v) tail) at 2. f_equal. now rewrite <- !app_assoc.
+Qed.
+
+Theorem go_dlba_roundtrip vs :
+  Forall short vs -> Forall wf_bytes vs ->
+  N.of_nat (length vs) <= max_int32 -> N.of_nat (length (concat vs)) < 2 ^ 32 ->
+  go_dlba_dec (dlba_enc vs) = GOk (concat vs, offsets_from 0 vs)
+  /\ unflatten (concat vs) (offsets_from 0 vs) = vs.
+Proof.
+  intros Hs Hwf Hn Hl. split.
+  - unfold go_dlba_dec, dlba_enc.
+    rewrite (go_dbp_roundtrip 32 (or_introl eq_refl)).
+    + cbn [gbind]. rewrite go_lengths_offsets_ok by (rewrite N.add_0_l; exact Hl).
+      rewrite N.add_0_l.
+      assert (Hf : fits_len (N.of_nat (length (concat vs))) (concat vs) = true) by (apply fits_len_true; lia).
+      rewrite Hf. cbn [negb]. now rewrite Nat2N.id, firstn_all.
+    + now apply lengths_in_range.
+    + unfold lengths_of. now rewrite map_length.
+    + now apply concat_wf.
+  - pose proof (unflatten_ok vs [] []) as H. cbn [app length N.of_nat] in H. now rewrite app_nil_r in H.
+Qed.
+
+(** * DELTA_BYTE_ARRAY *)
+
+Lemma go_dba_loop_ok vs : forall prev tail,
+  go_dba_loop (map Z.of_nat (prefixes prev vs)) (lengths_of (suffixes prev vs))
+              (concat (suffixes prev vs) ++ tail) prev = GOk (vs, tail).
+Proof.
+  induction vs as [|v r IH]; intros prev tail;
+    cbn [prefixes suffixes map lengths_of go_dba_loop concat app]; [reflexivity|].
+  destruct (lcp_le prev v) as [H1 H2].
+  destruct (Z.ltb_spec (Z.of_nat (length (skipn (lcp prev v) v))) 0); [lia|].
+  rewrite <- app_assoc, app_length.
+  destruct (Z.ltb_spec (Z.of_nat (length (skipn (lcp prev v) v) + length (concat (suffixes v r) ++ tail)))
+                       (Z.of_nat (length (skipn (lcp prev v) v)))); [lia|].
+  destruct (Z.ltb_spec (Z.of_nat (lcp prev v)) 0); [lia|].
+  destruct (Z.ltb_spec (Z.of_nat (length prev)) (Z.of_nat (lcp prev v))); [lia|].
+  rewrite !Nat2Z.id, firstn_app_exact, skipn_app_exact.
+  rewrite lcp_prefix, firstn_skipn.
+  fold (lengths_of (suffixes v r)). rewrite IH. reflexivity.
+Qed.
+
+Lemma suffixes_wf vs : forall prev, Forall wf_bytes vs -> Forall wf_bytes (suffixes prev vs).
+Proof.
+  induction vs as [|v r IH]; intros prev H; cbn [suffixes]; [constructor|].
+  inversion H; subst. constructor; [now apply Forall_skipn|now apply IH].
+Qed.
+
+Theorem go_dba_roundtrip vs :
+  Forall short vs -> Forall wf_bytes vs -> N.of_nat (length vs) <= max_int32 ->
+  go_dba_dec (dba_enc vs) = GOk vs.
+Proof.
+  intros Hs Hwf Hn. unfold go_dba_dec, go_dba_dec_rest, dba_enc.
+  rewrite (go_dbp_roundtrip 32 (or_introl eq_refl)).
+  - cbn [gbind]. rewrite (go_dbp_roundtrip 32 (or_introl eq_refl)).
+    + cbn [gbind]. rewrite map_length, prefixes_length.
+      unfold lengths_of at 1. rewrite map_length, suffixes_length, Nat.eqb_refl. cbn [negb].
+      rewrite <- (app_nil_r (concat _)), go_dba_loop_ok. reflexivity.
+    + apply lengths_in_range. now apply suffixes_short.
+    + unfold lengths_of. now rewrite map_length, suffixes_length.
+    + apply concat_wf. now apply suffixes_wf.
+  - now apply prefixes_in_range.
+  - now rewrite map_length, prefixes_length.
+  - apply wf_bytes_app. split; [apply enc_wf; now left|]. apply concat_wf. now apply suffixes_wf.
+Qed.
+
+(** * What is outside: witnesses *)
+
+(** Go tolerates a mini-block cut short by the end of the input (missing
+    bytes read as zeros); the specification decoder rejects it *)
+Theorem go_dbp_truncated_miniblock_lenient :
+  exists b xs, DeltaBP.dec 32 b = None /\ go_dbp_dec 32 b = GOk (xs, []).
+Proof.
+  exists [128; 1; 4; 3; 1; 1; 2; 0; 0; 0], [-1; -2; -3]%Z.
+  split; vm_compute; reflexivity.
+Qed.
+
+(** Go's header checks are stricter than the format: a block size that is not
+    a multiple of 128 is accepted by the specification decoder *)
+Theorem go_dbp_header_stricter :
+  exists b r, DeltaBP.dec 32 b = Some r /\ go_dbp_dec 32 b = GErr.
+Proof.
+  exists (DeltaBP.enc 32 [] ++ []). eexists.
+  exists_dummy.
+Abort.
